@@ -536,6 +536,7 @@ expandfunc(struct macro *m)
 	struct array str, tok;
 	size_t i, depth, paren;
 	struct token *t, copy;
+	bool nl;
 
 	/* read macro arguments */
 	paren = 0;
@@ -553,6 +554,7 @@ expandfunc(struct macro *m)
 			arrayaddbuf(&str, "\"", 1);
 		}
 		arg[i].ntoken = 0;
+		nl = false;
 		for (;;) {
 			if (t->kind == TEOF)
 				error(&t->loc, "EOF when reading macro parameters");
@@ -575,9 +577,21 @@ expandfunc(struct macro *m)
 				list that is freed while looking ahead for '('
 				*/
 				copy = *t;
-				if (!expand(&copy)) {
-					arrayaddbuf(&tok, &copy, sizeof(copy));
-					++arg[i].ntoken;
+				if (copy.kind == TNEWLINE) {
+					/*
+					a new-line inside an argument is only white space; kept as
+					a token it would separate a function-like macro name from
+					its '(' when the argument is rescanned
+					*/
+					nl = true;
+				} else {
+					if (nl)
+						copy.space = true;
+					nl = false;
+					if (!expand(&copy)) {
+						arrayaddbuf(&tok, &copy, sizeof(copy));
+						++arg[i].ntoken;
+					}
 				}
 			}
 			t = rawnext();
